@@ -373,6 +373,8 @@ impl GlobalScheduler {
         //    and runs the simulation step,
         // 3) this method takes the lock and schedules the now-outdated action.
         let mut scheduler_queue = self.scheduler_queue.lock().unwrap();
+        #[cfg(feature = "verif-hooks")]
+        crate::verif_hooks::probe(crate::verif_hooks::site::SCHED_LOCKED_BEFORE_TIME_READ, origin_id);
 
         let now = self.time();
         let time = deadline.into_time(now);
@@ -406,6 +408,8 @@ impl GlobalScheduler {
         // The scheduler queue must always be locked when reading the time (see
         // `schedule_from`).
         let mut scheduler_queue = self.scheduler_queue.lock().unwrap();
+        #[cfg(feature = "verif-hooks")]
+        crate::verif_hooks::probe(crate::verif_hooks::site::SCHED_LOCKED_BEFORE_TIME_READ, origin_id);
         let now = self.time();
         let time = deadline.into_time(now);
         if now >= time {
@@ -443,6 +447,8 @@ impl GlobalScheduler {
         // The scheduler queue must always be locked when reading the time (see
         // `schedule_from`).
         let mut scheduler_queue = self.scheduler_queue.lock().unwrap();
+        #[cfg(feature = "verif-hooks")]
+        crate::verif_hooks::probe(crate::verif_hooks::site::SCHED_LOCKED_BEFORE_TIME_READ, origin_id);
         let now = self.time();
         let time = deadline.into_time(now);
         if now >= time {
@@ -483,6 +489,8 @@ impl GlobalScheduler {
         // The scheduler queue must always be locked when reading the time (see
         // `schedule_from`).
         let mut scheduler_queue = self.scheduler_queue.lock().unwrap();
+        #[cfg(feature = "verif-hooks")]
+        crate::verif_hooks::probe(crate::verif_hooks::site::SCHED_LOCKED_BEFORE_TIME_READ, origin_id);
         let now = self.time();
         let time = deadline.into_time(now);
         if now >= time {
@@ -525,6 +533,8 @@ impl GlobalScheduler {
         // The scheduler queue must always be locked when reading the time (see
         // `schedule_from`).
         let mut scheduler_queue = self.scheduler_queue.lock().unwrap();
+        #[cfg(feature = "verif-hooks")]
+        crate::verif_hooks::probe(crate::verif_hooks::site::SCHED_LOCKED_BEFORE_TIME_READ, origin_id);
         let now = self.time();
         let time = deadline.into_time(now);
         if now >= time {
